@@ -21,6 +21,7 @@ import SpVerif.Ops.FileData
 import SpVerif.Ops.Mutation
 import SpVerif.Ops.MsgToUser
 import SpVerif.Ops.Factory
+import SpVerif.Ops.Heap
 /-!
 # Line-protocol driver: one JSON object per input line (`{"op": …, …}`), one JSON result per output line.
 `{"ok": …}` / `{"err": "<category>"}` are model results; `{"bad": "<msg>"}` is a protocol error.
@@ -51,6 +52,7 @@ def allOps : List (String × Handler) := []
   ++ Ops.Mutation.ops
   ++ Ops.MsgToUser.ops
   ++ Ops.Factory.ops
+  ++ Ops.Heap.ops
 
 def table : Std.HashMap String Handler := Std.HashMap.ofList allOps
 
